@@ -329,6 +329,14 @@ pub fn run(ctx: &Ctx) -> CheckResult {
         data_items(&mut o);
         res.absorb(o);
     }
+    // lifecycle state graph: Serde checked in EVERY reachable state (fixpoint where the graph is finite)
+    if !res.out.failed() {
+        let (o, grows) = super::graph::run_all(ctx, PROP, super::graph::Fork::Serde, if th { &[1, 2, 3, 4, 5] } else { &[1, 2, 3, 4] }, &[1, 2], if th { 150_000 } else { 5_000 }, if th { 16 } else { 10 });
+        let fixpoints = grows.iter().filter(|r| r["fixpoint"] == true).count();
+        res.extra.insert("lifecycle_graph".into(), json!(grows));
+        res.extra.insert("lifecycle_graph_fixpoints".into(), json!(fixpoints));
+        res.absorb(o);
+    }
     res.extra.insert("checkpoints".into(), json!(rows));
     res.extra.insert("distinct_checkpoint_states_total".into(), json!(total_cp));
     res.rule = "case = (configuration, checkpoint history, continuation): the real indicator after the history is serialized with bincode and deserialized once and twice; every continuation of n+2 inputs over 3 values is fed to the original (rebuilt by replay) and both restored copies, outputs compared at 1e-12 relative; checkpoints de-duplicated by concrete state; non-trivial = checkpoint history at least as long as the window".into();
